@@ -77,10 +77,16 @@ def literal_part(rep, cands, timeout):
     """numeric-literal closures of asm_parser: the digit string is an arbitrary natural N (every N is denoted by some
     digit string); std contracts: u64::from_str_radix / str::parse::<i64> return Ok(N) iff N fits"""
     mir, key = common.load_mir('std'); tt = common.type_table(); pr = obl.Prover(timeout, common.seed())
-    N = Int('N')
+    N = Int('N'); base = [10]
     def stubs(eng):
         eng.add_stub(r'from_str_radix$', lambda e, st, fr, callee, args, R: R(Enum(If(N < 2 ** 64, BitVecVal(0, 64), BitVecVal(1, 64)), {0: [V(Int2BV(N, 64), 'u64')], 1: [Opaque('ParseIntError')]}, 'Result')))
         eng.add_stub(r'<impl str>::parse$', lambda e, st, fr, callee, args, R: R(Enum(If(N < 2 ** 63, BitVecVal(0, 64), BitVecVal(1, 64)), {0: [V(Int2BV(N, 64), 'i64')], 1: [Opaque('ParseIntError')]}, 'Result')))
+        # length of the digit string: any L >= 1 with N < base^L (leading zeros allowed), base from the closure being checked
+        def strlen(e, st, fr, callee, args, R):
+            L = Int('L'); b = base[0]
+            st.pc.append(And(L >= 1, *[Or(L != k, N < b ** k) for k in range(1, 41)]))
+            return R(V(Int2BV(L, 64), 'usize'))
+        eng.add_stub(r'String::len$|<impl str>::len$', strlen)
         eng.add_stub(r'message_static_message$', lambda e, st, fr, callee, args, R: R(Opaque('streamerror')))
     def run(fname, args, pre=()):
         eng = mirsym.Engine(mir, tt, timeout); stubs(eng); f = mir.funcs[fname]
@@ -92,6 +98,7 @@ def literal_part(rep, cands, timeout):
             if fn in mir.funcs: pr.out['functions'][fn] = mir.fn_hash(fn)
         return ps
     def check(fname, what, args, spec_ok, spec_val, pre=()):
+        base[0] = 16 if what.startswith('hex') else 10
         try: ps = run(fname, args, pre)
         except mirsym.Unsupported as e:
             pr.out['errors'].append(f'{what}: {e}'); return
@@ -99,21 +106,21 @@ def literal_part(rep, cands, timeout):
             pc_ = list(p.st.pc)
             if p.kind != 'return':
                 r, m = pr.prove(f'{what}:no-panic', pc_, BoolVal(False), sample=f'{what}: no panic for any literal magnitude N')
-                if r == 'sat': cands.append(dict(role=f'asm-literal/{what}/panic', detail=f'{p.payload} for N = {m.eval(N)}', model=dict(N=str(m.eval(N))), friendly=True))
+                if r == 'sat': cands.append(dict(role=f'asm-literal/{what}/panic', detail=f'{p.payload} for N = {m.eval(N)}', model=dict(N=str(m.eval(N)), L=str(m.eval(Int('L')))), friendly=True))
                 continue
             v = p.payload
             if isinstance(v, Enum) and v.ty == 'Result' and not (is_true(simplify(v.disc() == 0)) or is_true(simplify(v.disc() == 1))):
                 d_ = v.disc()
                 r, m = pr.prove(f'{what}:Ok<=>fits', pc_, And(Or(d_ != 0, And(spec_ok, v.payload[0][0].t == spec_val)), Or(d_ != 1, Not(spec_ok)), ULT(d_, 2)), sample=f'{what}: Ok(v) iff N fits, and then v = N; Err otherwise; for every N')
-                if r == 'sat': cands.append(dict(role=f'asm-literal/{what}/wrong-result', detail=f'N = {m.eval(N)}', model=dict(N=str(m.eval(N))), friendly=True))
+                if r == 'sat': cands.append(dict(role=f'asm-literal/{what}/wrong-result', detail=f'N = {m.eval(N)}', model=dict(N=str(m.eval(N)), L=str(m.eval(Int('L')))), friendly=True))
             elif isinstance(v, Enum) and v.ty == 'Result':
                 isok = is_true(simplify(v.disc() == 0))
                 if isok:
                     r, m = pr.prove(f'{what}:Ok=>fits-and-value', pc_, And(spec_ok, v.payload[0][0].t == spec_val), sample=f'{what}: Ok(v) only if N fits and v = N')
-                    if r == 'sat': cands.append(dict(role=f'asm-literal/{what}/wrong-value', detail=f'N = {m.eval(N)}', model=dict(N=str(m.eval(N))), friendly=True))
+                    if r == 'sat': cands.append(dict(role=f'asm-literal/{what}/wrong-value', detail=f'N = {m.eval(N)}', model=dict(N=str(m.eval(N)), L=str(m.eval(Int('L')))), friendly=True))
                 else:
                     r, m = pr.prove(f'{what}:Err=>does-not-fit', pc_, Not(spec_ok), sample=f'{what}: Err only if N does not fit')
-                    if r == 'sat': cands.append(dict(role=f'asm-literal/{what}/rejects-valid', detail=f'N = {m.eval(N)}', model=dict(N=str(m.eval(N))), friendly=True))
+                    if r == 'sat': cands.append(dict(role=f'asm-literal/{what}/rejects-valid', detail=f'N = {m.eval(N)}', model=dict(N=str(m.eval(N)), L=str(m.eval(Int('L')))), friendly=True))
             else:
                 r, m = pr.prove(f'{what}:value', pc_, v.t == spec_val if isinstance(v, V) else BoolVal(True))
                 if r == 'sat': cands.append(dict(role=f'asm-literal/{what}/wrong-value', detail='', model=None, friendly=True))
@@ -133,7 +140,8 @@ def replay_asm(c):
     if md is None: return True, 'table/structural finding'
     if 'N' in md:
         role = c['role']
-        txt = {'hex-literal': f'mov r0, 0x{int(md["N"]):x}', 'decimal-literal': f'mov r0, {md["N"]}', 'register-number': f'mov r{md["N"]}, 1'}.get(role.split('/')[1], f'lddw r0, -0x8000000000000000')
+        L = int(md['L']) if str(md.get('L', '')).isdigit() and int(md['L']) <= 60 else 0          # digit-string length of the model (leading zeros)
+        txt = {'hex-literal': f'mov r0, 0x{int(md["N"]):x}'.replace('0x', '0x' + '0' * max(0, L - len(f'{int(md["N"]):x}'))), 'decimal-literal': f'mov r0, {str(md["N"]).zfill(L)}', 'register-number': f'mov r{md["N"]}, 1'}.get(role.split('/')[1], f'lddw r0, -0x8000000000000000')
     elif 'operands' in md:
         def op(o):
             d, a, b = o; sa = a - (1 << 64) if a >> 63 else a; sb = b - (1 << 64) if b >> 63 else b
